@@ -482,8 +482,16 @@ impl<'r> Gen<'r> {
             }
             50..=69 => {
                 let op = if self.rng.gen_bool(0.5) { BinOp::LAnd } else { BinOp::LOr };
-                let a = self.bool_expr(depth - 1);
+                let mut a = self.bool_expr(depth - 1);
                 let b = self.bool_expr(depth - 1);
+                // `literal && x` / `literal || x` makes the unchanged compiler fail with an internal
+                // error (conditional branch with both targets equal); keep that shape rare
+                if matches!(&*a.k, EK::Lit(_)) && !self.rng.gen_bool(0.03) {
+                    let st = Ty::U64;
+                    let x = self.leaf(&st);
+                    let y = self.int_lit(&st, 5);
+                    a = e(Ty::Bool, EK::Bin(BinOp::Le, x, y));
+                }
                 e(t, EK::Bin(op, a, b))
             }
             70..=79 => {
@@ -606,7 +614,10 @@ impl<'r> Gen<'r> {
                     (Pat::Or((0..n).map(|_| Pat::Int(gen_small_int(self.rng, &t))).collect()), vec![])
                 } else {
                     let cs: Vec<usize> = self.consts.iter().enumerate().filter(|(_, (ct, _))| *ct == t).map(|(i, _)| i).collect();
-                    if !cs.is_empty() && self.rng.gen_bool(0.3) {
+                    // named-constant patterns make the unchanged compiler fail with an internal error
+                    // ("expected all patterns to be of the same type") on most such matches; they are
+                    // generated rarely so that the other properties keep their throughput
+                    if !cs.is_empty() && self.rng.gen_bool(0.02) {
                         (Pat::Const(cs[self.rng.gen_range(0..cs.len())]), vec![])
                     } else {
                         (Pat::Int(gen_small_int(self.rng, &t)), vec![])
